@@ -32,7 +32,9 @@ Inductive sval :=
 | VErr.
 
 Definition is_ev (v : sval) : bool := match v with VNum _ | VErr => false | _ => true end.
-(** wrap_in_experimental_value *)
+(** wrap_in_experimental_value: a number of ANY numbers.Real type (Python int / float / bool, numpy scalar of any
+    width, Fraction) becomes Constant(int(x)) or Constant(float(x)): a Constant with the same numeric value in a
+    plain Python type -- [VConst n] carries that value, so [KNum x] stands for every spelling of the number x *)
 Definition wrapv (v : sval) : sval := match v with VNum n => VConst n | _ => v end.
 
 (** ExperimentalValue.__d__(self, other) for a scalar [other] *)
